@@ -497,7 +497,16 @@ def recvloop_scenario(ctx):
     for r in list(rpd.OscFunc._all_func_proxies):
         r.free()
     fired = []
-    obj = rpd.OscFunc(lambda msg, time, addr, port: fired.append(list(msg)), '/x')
+    seen2 = []
+
+    def greedy(store):
+        # a callback that consumes the list it was given: what other receivers get must not depend on it
+        def f(msg, time, addr, port):
+            store.append(list(msg))
+            del msg[:]
+        return f
+    obj = rpd.OscFunc(greedy(fired), '/x')
+    obj2 = rpd.OscFunc.matching(greedy(seen2), '/x')
     clone = object.__new__(type(live))
     clone.__dict__.update(live.__dict__)
     sock = FakeSocket()
@@ -514,10 +523,17 @@ def recvloop_scenario(ctx):
                             {'key': 'c18:recvloop:raises', 'replay': rec})
         # responders are called through SystemClock.sched in RT: dispatch is asynchronous; wait briefly
         t0 = time.time()
-        while len(fired) < want and time.time() - t0 < 1.0:
+        while (len(fired) < want or len(seen2) < want) and time.time() - t0 < 1.0:
             time.sleep(0.005)
     finally:
         obj.free()
+        obj2.free()
+    for store, nm in ((fired, 'exact'), (seen2, 'matching')):
+        bad = [m_ for m_ in store if m_ != ['/x', 7]]
+        if bad or len(store) != want:
+            raise Violation(f'the {nm} responder received {store} for {want} message(s) [\'/x\', 7] (script {script}): '
+                            f'a receiver that consumed its copy changed what the others got', None,
+                            {'key': 'c18:recvloop:shared-message', 'replay': rec})
     if sock.i != len(items):
         raise Violation(f'the receive loop stopped after {sock.i} of {len(items)} datagrams (script {script}): a datagram '
                         f'other than its own stop sentinel ended it, later messages are never processed', None,
@@ -667,18 +683,26 @@ def job_bundle(j):
 
 def registry_scenario(ctx, nops):
     from sc3.base import systemactions as sac, model as mdl
-    which = ctx.choose('registry', 5)
-    rec = {'mode': 'rt', 'kind': 'registry', 'nops': nops}
+    which = ctx.choose('registry', 6)
+    # action 0, when it runs, unregisters action 1 (system-action registries re-check before every action)
+    killer = ctx.choose('killer', 2) if which in (0, 1, 5) else 0
+    rec = {'mode': 'rt', 'kind': 'registry', 'nops': nops, 'killer': killer}
     hist = []
 
     def data(sub):
         return {'key': f'c18:registry:{sub}', 'replay': dict(rec, sub=sub, history=list(hist), which=which)}
     log = []
     fns = []
+    box = {}
     for k in range(3):
         def mk(kk):
             def f(*a):
                 log.append(kk)
+                if kk == 0 and killer:
+                    try:
+                        box['rem'](fns[1])
+                    except (KeyError, ValueError):
+                        pass
             return f
         fns.append(mk(k))
     ref = []
@@ -698,6 +722,12 @@ def registry_scenario(ctx, nops):
         add = lambda f: reg.add(key, f)          # noqa
         rem = lambda f: reg.remove(key, f)       # noqa
         run = lambda: reg.run(sv)                # noqa
+    elif which == 5:
+        reg = sac.CmdPeriod
+        saved_opts = (reg.free_servers, reg.clear_clocks)
+        reg.free_servers, reg.clear_clocks = False, False        # documented switches: only the registered actions run
+        box['restore'] = lambda: (setattr(reg, 'free_servers', saved_opts[0]), setattr(reg, 'clear_clocks', saved_opts[1]))
+        add, rem, run = reg.add, reg.remove, reg.run
     else:
         obj = object.__new__(type('Dep', (), {}))
         add = lambda f: mdl.NotificationCenter.register(obj, 'sig', f, f)      # noqa
@@ -709,11 +739,20 @@ def registry_scenario(ctx, nops):
             if op == 2:
                 hist.append(['run'])
                 log.clear()
+                box['rem'] = rem
                 run()
                 mine = [x for x in log]
-                if mine != ref:
-                    raise Violation(f'registry ran {mine}, currently registered (in order) {ref}; history {hist}', None,
-                                    data('run'))
+                exp = list(ref)
+                after = list(ref)
+                if killer and 0 in ref and 1 in ref:
+                    if ref.index(0) < ref.index(1):
+                        exp.remove(1)        # unregistered by action 0 before its turn: it does not run
+                    after.remove(1)
+                if mine != exp:
+                    raise Violation(f'registry ran {mine}, currently registered (in order) {ref}' + (' where action 0 '
+                                    'unregisters action 1 when it runs' if killer else '') + f', expected {exp}; history {hist}',
+                                    None, data('run'))
+                ref[:] = after
                 ctx.obligations += 1
                 ctx.discharged += 1
             else:
@@ -738,6 +777,8 @@ def registry_scenario(ctx, nops):
                 rem(f)
             except Exception:
                 pass
+        if 'restore' in box:
+            box['restore']()
     return {'registry': which, 'history': list(hist)}
 
 
@@ -817,6 +858,7 @@ def replay(rec):
     if kind == 'registry':
         vals = dict(rec.get('values', {}))
         vals['registry'] = rec.get('which', 0)
+        vals['killer'] = rec.get('killer', 0)
         for i, h in enumerate(rec.get('history', [])):
             vals[f'op{i}'] = {'add': 0, 'remove': 1, 'run': 2}[h[0]]
             if len(h) > 1:
@@ -911,7 +953,7 @@ def main(tier, seed):
     chk.require_notes('matching', ['match'])
     chk.require_notes('dispatch', ['dispatch'])
     chk.require_notes('hostile_bundle', ['bundle:next-iteration', 'bundle:rejected'])
-    chk.require_notes('registries', ['registry:0', 'registry:1', 'registry:2', 'registry:3', 'registry:4'])
+    chk.require_notes('registries', ['registry:0', 'registry:1', 'registry:2', 'registry:3', 'registry:4', 'registry:5'])
     chk.bounds = {'pattern_skeletons': f'"/" + up to {2 if tier == "quick" else 3} tokens from {TOKENS}; keys: printable '
                                        'ASCII of any length', 'dispatch_histories': f'{nops} operations over {OPS}, 4 '
                                        'responder variants, 4 message variants, symbolic int argument',
